@@ -51,7 +51,7 @@ Qed.
 (* --- integers *)
 Theorem C13_int_roundtrip : forall n : Z, (i64_min <= n <= u64_max)%Z ->
   int_token n = Some (dec_of_Z n)
-  /\ resolve Plain None (dec_of_Z n) = RNum n 0
+  /\ (forall f, resolve f Plain None (dec_of_Z n) = RNum n 0)
   /\ json_serde_int (dec_of_Z n) = SInt n
   /\ ((n <= i64_max)%Z -> toml_int (dec_of_Z n) = TInt n).
 Proof. exact int_roundtrip. Qed.
@@ -61,22 +61,22 @@ Theorem C13_int_outside_range_goes_through_f64 : forall n : Z,
 Proof. exact int_outside_range_goes_through_f64. Qed.
 
 (* --- YAML scalar resolution *)
-Theorem C13_yaml_quoted_is_string : forall st tg v, st <> Plain -> resolve st tg v = RStr v.
+Theorem C13_yaml_quoted_is_string : forall f st tg v, st <> Plain -> resolve f st tg v = RStr v.
 Proof. exact yaml_quoted_is_string. Qed.
 
-Theorem C13_yaml_plain_resolution : forall v : str,
-  (resolve Plain None v = RStr v <-> nonstring_spelling v = false)
-  /\ (resolve Plain None v = RErr <-> infnan_spelling v = true).
+Theorem C13_yaml_plain_resolution : forall (f : fmt) (v : str),
+  (resolve f Plain None v = RStr v <-> nonstring_spelling f v = false)
+  /\ (resolve f Plain None v = RErr <-> infnan_spelling v = true).
 Proof. exact yaml_plain_resolution. Qed.
 
 Theorem C13_yaml_string_survives_under_contract :
   forall (writes_plain : str -> bool) (quoted : style),
     quoted <> Plain -> emitter_meets_contract writes_plain ->
-    forall s, resolve (if writes_plain s then Plain else quoted) None s = RStr s.
+    forall s, resolve FYaml (if writes_plain s then Plain else quoted) None s = RStr s.
 Proof. exact yaml_string_survives_under_contract. Qed.
 
 Theorem C13_yaml_contract_necessary :
-  forall s, nonstring_spelling s = true -> resolve Plain None s <> RStr s.
+  forall f s, nonstring_spelling f s = true -> resolve f Plain None s <> RStr s.
 Proof. exact yaml_contract_necessary. Qed.
 
 (* --- T1: the JSON event loader (yaml.rs) and the serde path agree on every in-scope document *)
